@@ -35,6 +35,7 @@ struct Scn
   int weight;
   unsigned allowed; // bitmask of admissible error codes (1u << int(TransportError))
   bool clientTlsConfigured = true; // false: TLS is requested on a transport whose client TLS is not enabled
+  bool shortEngineTimer = false;   // engine connectTimeout swept 2..20 ms + I/O thread held in a slow onData of another session
 };
 static constexpr unsigned E(TransportError e) { return 1u << unsigned(e); }
 static const unsigned kT = E(TransportError::Timeout);
@@ -55,6 +56,10 @@ static const Scn kScn[] = {
   {"resolve-slow-ok", TK::Accept, true, false, true, false, 2, kT},
   // TLS requested but never configured on the client: success would be a clear-text session
   {"tls-requested-not-configured", TK::TlsOk, true, true, false, false, 1, kT | E(TransportError::Config) | E(TransportError::TLSHandshake), false},
+  // the engine's OWN connect timer (TimerService thread) races the completion of a slow TLS handshake
+  // while the I/O thread is held in a slow user callback of another session: a timer that fired just
+  // before the completion was announced must not close the session connectSync returned
+  {"tls-slow-engine-connect-timer", TK::TlsSlow, true, true, true, false, 3, kT, true, true},
 };
 static const int kNScn = int(sizeof kScn / sizeof kScn[0]);
 
@@ -79,6 +84,9 @@ struct BatchState
   std::mutex m;
   std::vector<CbEv> evs;
   std::map<uint64_t, std::string> data;
+  std::atomic<uint64_t> holdSid{0};   // data on this session holds the I/O thread for holdUs (slow user callback)
+  std::atomic<uint32_t> holdUs{0};
+  std::atomic<uint64_t> holds{0};
 };
 struct CallRec
 {
@@ -171,6 +179,7 @@ static void runBatch(uint64_t seed, uint64_t idx, vfnet::Pki &pki, int onlyScn)
     if (si != 2 && si != 8) { sweep.push_back(1000); sweep.push_back(1000); } // targets that answer: let the definite error win sometimes
   }
   if (cancellable && (si == 2 || si == 8)) sweep = {150, 250, 320};
+  if (S.shortEngineTimer) sweep = {3000, 3000, 3000, 3000, 20, 50};
   std::vector<uint32_t> stallUs = {0, 200, 500, 1000, 1500, 2000, 3000, 5000, 8000, 13000};
 
   // ---- target + resolver script
@@ -197,6 +206,13 @@ static void runBatch(uint64_t seed, uint64_t idx, vfnet::Pki &pki, int onlyScn)
     cfg.clientTls.verifyPeer = true;
     cfg.clientTls.caFile = pki.caFile;
   }
+  uint32_t engineTimerMs = 0;
+  if (S.shortEngineTimer)
+  {
+    static const uint32_t et[] = {2, 3, 5, 8, 12, 20};
+    engineTimerMs = et[rng.below(6)];
+    cfg.connectTimeout = std::chrono::milliseconds(engineTimerMs);
+  }
   auto st = std::make_shared<BatchState>();
   auto t = Transport::tcp(cfg);
   t->onConnect([st](SessionId sid, const TransportAddress &) { std::lock_guard<std::mutex> g(st->m); st->evs.push_back({0, sid, vf::nowNs(), 0, ""}); });
@@ -204,11 +220,32 @@ static void runBatch(uint64_t seed, uint64_t idx, vfnet::Pki &pki, int onlyScn)
   t->onAccept([st](SessionId sid, const TransportAddress &) { std::lock_guard<std::mutex> g(st->m); st->evs.push_back({2, sid, vf::nowNs(), 0, ""}); });
   t->onError([st](TransportError c, const std::string &m) { std::lock_guard<std::mutex> g(st->m); st->evs.push_back({3, 0, vf::nowNs(), int(c), m}); });
   t->onData([st](SessionId sid, iora::core::BufferView d, std::chrono::steady_clock::time_point) {
-    std::lock_guard<std::mutex> g(st->m);
-    st->data[sid].append((const char *)d.data(), d.size());
+    {
+      std::lock_guard<std::mutex> g(st->m);
+      auto &buf = st->data[sid];
+      if (buf.size() < 65536) buf.append((const char *)d.data(), d.size());
+    }
+    if (sid == st->holdSid.load() && sid != 0) { st->holds++; vf::sleepMs(double(st->holdUs.load()) / 1000.0); }
   });
   if (!t->start().isOk()) { O.inconclusive("transport start failed"); return; }
   TlsMode mode = S.tls ? TlsMode::Client : TlsMode::None;
+  // session A on a plain echo target: every byte echoed on it holds the I/O thread in onData
+  std::unique_ptr<vfnet::Target> tgtA;
+  uint64_t holdA = 0;
+  if (S.shortEngineTimer)
+  {
+    tgtA.reset(new vfnet::Target(TK::Accept, nullptr, seed + idx + 5));
+    // the engine's connect timer is tiny in this batch: retry until A itself got through
+    for (int tries = 0; tries < 50 && !holdA; tries++)
+    {
+      auto ra = t->connectSync("127.0.0.1", tgtA->port(), TlsMode::None, std::chrono::milliseconds(5000));
+      if (ra.isOk()) holdA = ra.value();
+    }
+    if (!holdA) { O.inconclusive("could not establish the holder session"); t->stop(); return; }
+    static const uint32_t hu[] = {1000, 2000, 4000, 8000, 15000, 25000, 40000};
+    st->holdUs = hu[rng.below(7)];
+    st->holdSid = holdA;
+  }
 
   // ---- callers
   std::vector<std::vector<CallRec>> recs(nCallers);
@@ -284,6 +321,17 @@ static void runBatch(uint64_t seed, uint64_t idx, vfnet::Pki &pki, int onlyScn)
       vf::shim::tlsPreParkDelayUs = 0;
 #endif
     });
+  std::thread holder;
+  std::atomic<bool> holderStop{false};
+  if (holdA)
+    holder = std::thread([&, hs = rng.next()] {
+      vf::Rng r(hs);
+      while (!holderStop.load())
+      {
+        t->send(holdA, "h", 1); // echoed by the peer -> onData(A) -> I/O thread held for holdUs
+        vf::sleepMs(double(st->holdUs.load()) / 1000.0 * (0.3 + 0.1 * double(r.below(14))));
+      }
+    });
   // asynchronous connect() mixed in: its ids legitimately reach the global callbacks
   std::set<uint64_t> asyncIds;
   std::thread asyncTh;
@@ -298,6 +346,10 @@ static void runBatch(uint64_t seed, uint64_t idx, vfnet::Pki &pki, int onlyScn)
     });
   for (auto &x : th) x.join();
   if (asyncTh.joinable()) asyncTh.join();
+  holderStop = true;
+  if (holder.joinable()) holder.join();
+  st->holdSid = 0; // from here on the I/O thread runs freely (echo verification, quiesce)
+  if (holdA) { O.obs("io_thread_holds_in_slow_onData", st->holds.load()); O.obs("calls_with_short_engine_connect_timer", uint64_t(nCallers) * uint64_t(callsPer)); }
   callersDone = true;
   if (canceller.joinable()) canceller.join();
   { std::lock_guard<std::mutex> g(g_regsM); g_regs = nullptr; }
@@ -332,6 +384,7 @@ static void runBatch(uint64_t seed, uint64_t idx, vfnet::Pki &pki, int onlyScn)
         else if (!(allowed & (1u << unsigned(c.code))))
           O.viol(std::string("C04:unexpected-error:") + S.name + ":" + errName(c.code), std::string(api) + " returned an error this target cannot produce", callJson(S.name, c));
         if (c.code == int(TransportError::Cancelled)) O.obs("cancel_won");
+        if (c.code == int(TransportError::Timeout) && c.msg == "Connect timeout") O.obs("engine_connect_timer_closed_a_pending_connect");
       }
       if (c.api == 1 && c.cancelAtUs >= 0 && !c.threw && (c.ok || c.code != int(TransportError::Cancelled)) && double(c.cancelAtUs) / 1000.0 < elapsedMs) O.obs("cancel_lost_to_" + rc);
       // return-time bound: judged on unperturbed batches (the pre-park delay deliberately holds the
@@ -419,9 +472,24 @@ static void runBatch(uint64_t seed, uint64_t idx, vfnet::Pki &pki, int onlyScn)
   }
   else if (tgt && S.peerFirst) O.obs("ok_sessions_on_resetting_target", okBySid.size());
 
+  // ---- (B2) nobody has closed anything yet: a close of a handed-out session on a target whose peer
+  // never closes first can only come from the transport itself
+  if (tgt && !S.peerFirst)
+  {
+    ioBarrier(*t);
+    std::lock_guard<std::mutex> g(st->m);
+    for (auto &e : st->evs)
+      if (e.kind == 1 && okBySid.count(e.sid))
+        O.viol(std::string("C04:returned-session-closed-by-transport:") + S.name + ":" + reasonClass(e.code, e.msg),
+               "connectSync returned ok(sid); the transport then closed that session itself (neither the peer nor the caller did)",
+               "{\"sid\":" + std::to_string(e.sid) + ",\"reason\":" + vf::jstr(e.msg.substr(0, 100)) + ",\"code\":\"" + errName(e.code) + "\",\"engine_connect_timeout_ms\":" + std::to_string(engineTimerMs) +
+                 ",\"io_hold_us\":" + std::to_string(st->holdUs.load()) + ",\"call\":" + callJson(S.name, *okBySid[e.sid]) + "}");
+    O.obs("returned_sessions_checked_for_transport_side_close", okBySid.size());
+  }
   // ---- (C) quiesce: close what we own, drain the command queue, then nothing may stay open
   for (auto &kv : okBySid) t->close(kv.first);
   for (auto id : asyncIds) t->close(id);
+  if (holdA) t->close(holdA);
   ioBarrier(*t);
   uint64_t tq = vf::nowNs();
   {
@@ -470,7 +538,7 @@ static void runBatch(uint64_t seed, uint64_t idx, vfnet::Pki &pki, int onlyScn)
     for (auto &e : st->evs) if (e.kind == 0 && asyncIds.count(e.sid)) asyncConnected++;
     // engine-level completions that lost against the timeout: the engine fired its onConnect
     // (stats.connected) but neither a caller nor the global callback received the session
-    uint64_t handed = nOk + asyncConnected;
+    uint64_t handed = nOk + asyncConnected + (holdA ? 1 : 0);
     uint64_t lateCompletions = stats.connected > handed ? stats.connected - handed : 0;
     if (lateCompletions) O.obs("collision_timeout_won_after_completion", lateCompletions);
     uint64_t leaks = 0;
@@ -485,7 +553,7 @@ static void runBatch(uint64_t seed, uint64_t idx, vfnet::Pki &pki, int onlyScn)
       }
       else if (e.kind == 1)
       {
-        if (okBySid.count(e.sid) || asyncIds.count(e.sid)) { O.obs("global_onClose_for_handed_out_id"); continue; }
+        if (okBySid.count(e.sid) || asyncIds.count(e.sid) || (holdA && e.sid == holdA)) { O.obs("global_onClose_for_handed_out_id"); continue; }
         leaks++;
         // history shape: a leak is "explained" by a completion that arrived after the caller's
         // timeout (it erased the waiter record, so the close that follows is no longer suppressed);
